@@ -4,6 +4,8 @@ With --write, stores the list in each meta.json ('detected_by')."""
 import sys, os, json, importlib
 V = os.path.dirname(os.path.dirname(os.path.abspath(__file__)))
 sys.path.insert(0, V)
+from vlib import determinism
+determinism.ensure()
 from multiprocessing import Pool
 from vlib.model import read_sources
 from selftest import runner
